@@ -27,6 +27,9 @@ BUILT = {
     "C04": ("exhaustive enumeration of file-class sequences (length 0..3/4, both argument modes) + Hypothesis-sampled longer ones, against a model of verdict lines and exit status; forked CLI validated against the real CLI",
             "Every sequence over {clean, notice-only, erroneous, fatal} up to the bound is run through the CLI as explicit paths and as a directory; verdict lines and exit status must match the model computed from independent in-process runs.",
             "Class representatives are generated per run (one per class); the forked-CLI adapter is cross-checked against real processes on every run.", "§4.4"),
+    "C06": ("history-based testing: generated sequences of files through one shared registry in a child forked from a pristine process, each step compared with the file alone in a fresh fork; sampled permutations of the rules directory listing in spawned interpreters",
+            "Invariant over the history: the result of every step equals the file's result alone. Histories mix clean, violating, fatal (garbage, #if), lexical, recursion-sensitive and comment-laden files of both types, with debug and -R options; reversed orders; listing permutations on a generated corpus.",
+            "Sampled histories (<= 6 steps) and permutations; forked children isolate leaked state from the harness.", "§4.6"),
     "C07": ("runtime monitor of Context.pop_tokens over generated programs (tiling / count / alignment / depth invariants) + fault injection of unrecognisable fragments at generated statement boundaries",
             "A test-side monitor records every token pop; on generated conforming and violating files the pops must tile the token list, and on conforming files the statement count must equal the model's, statements must start and end at line ends and the scope must be back at file level after each function. "
             "Eight self-delimiting garbage fragments inserted at generated boundaries (and as last line with/without newline) must stop the run with a fatal diagnostic, never be dropped under an OK! verdict.",
